@@ -35,7 +35,7 @@ MC_Placements(n) ==
     ELSE {f \in [1..4 -> ({Centre} \cup Sub4)] : f[1] = Centre /\ Injective(f, 4)}
 
 MC_Targets == [i \in 1..27 |-> <<(i - 1) \div 9, ((i - 1) \div 3) % 3, (i - 1) % 3>>]
-MC_Scales == IF Tier = "quick" THEN {4, 8, 13} ELSE {1, 4, 8, 13, 16}
+MC_Scales == IF Tier = "quick" THEN {0, 4, 8, 13} ELSE {0, 1, 4, 8, 13, 16}
 
 (* the 24 proper rotations of the cubic lattice (signed permutation matrices, det = +1) *)
 Rotations == {<<<<1, 0, 0>>, <<0, 1, 0>>, <<0, 0, 1>>>>,
